@@ -30,7 +30,7 @@ impl<'a> WireFormat<'a> for EUI48 {
     where
         Self: Sized,
     {
-        let address =data[*position..*position + 6].try_into()?;
+        let address =data.get(*position..*position + 6).ok_or(crate::SimpleDnsError::InsufficientData)?.try_into()?;
         *position += 6;
         Ok(Self { address })
     }
@@ -50,7 +50,7 @@ impl<'a> WireFormat<'a> for EUI64 {
     where
         Self: Sized,
     {
-        let address =data[*position..*position + 8].try_into()?;
+        let address =data.get(*position..*position + 8).ok_or(crate::SimpleDnsError::InsufficientData)?.try_into()?;
         *position += 8;
         Ok(Self { address })
     }
